@@ -130,8 +130,8 @@ CHECKS["C06"] = dict(
     level_note="Bounds: views over {d, d/f, e, g} with solver-chosen classes (regular/symlink/fifo), regular files of 0..1 (quick) / 0..2 (thorough) symbolic bytes read in arbitrary fragments, request scripts of 2 (quick) / 3 (thorough) ids drawn from all announced positions plus one never-announced id. " + FS_TRUST + BASE_TRUST,
     assumptions=["one schedule; request concurrency, REQ racing the STAT stream and bursts >132 are outside the claim", "the stream is an in-memory FIFO that deep-copies packets"],
     obligations=[
-        ob("VH_C06_sender", dict(MAXB=1, NREQ=2), Q, covers=["valid-request", "invalid-request", "fin"], bounds="files <=1 byte, 2 requests"),
-        ob("VH_C06_sender", dict(MAXB=2, NREQ=3), T, covers=["valid-request", "invalid-request", "fin"], bounds="files <=2 bytes, 3 requests"),
+        ob("VH_C06_sender", dict(MAXB=1, NREQ=2), Q, covers=["valid-request", "invalid-request", "fin", "hardlink-entry"], bounds="files <=1 byte, 2 requests"),
+        ob("VH_C06_sender", dict(MAXB=2, NREQ=3), T, covers=["valid-request", "invalid-request", "fin", "hardlink-entry"], bounds="files <=2 bytes, 3 requests"),
     ],
 )
 
@@ -153,7 +153,9 @@ CHECKS["C05"] = dict(
     obligations=[
         ob("VH_C05_notify", dict(SHAPE=0, MAXB=1), covers=["unchanged", "changed", "dir-metadata-change", "dir-unchanged", "delete", "done"], bounds="source {d, e}"),
         ob("VH_C05_notify", dict(SHAPE=1, MAXB=2), covers=["unchanged", "changed", "done"], bounds="source {d, d/f}, files <=2 bytes"),
+        ob("VH_C05_notify", dict(SHAPE=0, MAXB=1, FILTER=1), covers=["unchanged", "changed", "delete", "done"], bounds="source {d, e}, receiver filter rewriting the group of every entry"),
         ob("VH_C05_notify", dict(SHAPE=2, MAXB=1), T, covers=["unchanged", "changed", "dir-metadata-change", "delete", "done"], bounds="source {d, d/f, e} incl. hard link"),
+        ob("VH_C05_notify", dict(SHAPE=2, MAXB=1, FILTER=1), T, covers=["unchanged", "changed", "delete", "done"], bounds="source {d, d/f, e}, receiver filter rewriting the group"),
     ],
 )
 
